@@ -399,7 +399,8 @@ class Check:
             import multiprocessing as mp
 
             ctxmp = mp.get_context("fork")
-            with ctxmp.Pool(jobs) as pool:
+            # one task per worker process: the hash-consing table of a finished scenario is released with its process
+            with ctxmp.Pool(jobs, maxtasksperchild=1) as pool:
                 results = pool.starmap(_run_task, [(t, self.seed) for t in tasks], chunksize=1)
         self.records.extend(results)
         return results
